@@ -48,6 +48,16 @@ def select(chain):
     lib().SelectParams(chain)
 
 
+def unselected():
+    """Put the two parameter globals back into the state they have in a process in which SelectParams
+    has never been called: exactly the two assignments the modules make at import time (two DISTINCT
+    objects - the general parameters, and core parameters that are not the same object)."""
+    B = lib()
+    import bitcoin.core
+    B.params = B.MainParams()
+    bitcoin.core.coreparams = bitcoin.core.CoreMainParams()
+
+
 def current_chain():
     return lib().params.NAME
 
